@@ -107,6 +107,50 @@ def run(ctx):
     # atomic flag
     cls = P.classes.get("Oomd::FsDropInService", {})
     fl_ = {x["name"]: x for x in cls.get("fields", [])}
+    # 'the directory went away' stays pending until the watch is back: the flag is cleared only where prepDropInWatcher succeeded, or it
+    # is raised again on every path on which the re-watch failed
+    n_clr = 0
+    for f_ in [x for x in P.fns.values() if x.cls == "Oomd::FsDropInService" or (x.kind == "lambda" and "FsDropInService" in x.pq)]:
+        clears = []
+        for i_, n_ in enumerate(f_.nodes):
+            if f_.pos_of(i_) is None:
+                continue
+            if n_["k"] in ("bin", "call") and n_.get("op") == "=" and "drop_in_dir_deleted_" in f_.text(n_.get("l", n_.get("recv", -1))) and \
+                    f_.text(n_["r"] if "r" in n_ else n_["args"][0]) == "false":
+                clears.append(i_)
+            elif n_["k"] == "call" and n_.get("cname") in ("store", "exchange") and "drop_in_dir_deleted_" in f_.text(n_.get("recv", -1)) and n_.get("args") and f_.text(n_["args"][0]) == "false":
+                clears.append(i_)
+        if not clears or f_.kind in ("ctor",):
+            continue
+        raises = [i_ for i_, n_ in enumerate(f_.nodes) if f_.pos_of(i_) is not None and (
+            (n_["k"] in ("bin", "call") and n_.get("op") == "=" and "drop_in_dir_deleted_" in f_.text(n_.get("l", n_.get("recv", -1))) and f_.text(n_["r"] if "r" in n_ else n_["args"][0]) == "true") or
+            (n_["k"] == "call" and n_.get("cname") in ("store", "exchange") and "drop_in_dir_deleted_" in f_.text(n_.get("recv", -1)) and n_.get("args") and f_.text(n_["args"][0]) == "true"))]
+        PREP_OK = lambda k, p: isinstance(k, str) and "prepDropInWatcher(" in k and ((re.match(r"^\((0 == .*|.* == 0)\)$", k) and p is True) or (re.match(r"^this->prepDropInWatcher\(.*\)$", k) and p is False))
+        PREP_BAD = lambda k, p: isinstance(k, str) and "prepDropInWatcher(" in k and ((re.match(r"^\((0 == .*|.* == 0)\)$", k) and p is False) or (re.match(r"^this->prepDropInWatcher\(.*\)$", k) and p is True))
+        for c_ in clears:
+            n_clr += 1
+            g_ = Flow(P, f_, cg=cg).guards(c_)
+            okc = any(PREP_OK(k, p) for k, p in g_)
+            if not okc:
+                fl2 = Flow(P, f_, events={r_: [("set", "raised")] for r_ in raises}, cg=cg, start=f_.pos_of(c_)[0],
+                           edge_tokens=lambda k, p: ["rewatch-failed"] if PREP_BAD(k, p) else (["rewatch-ok"] if PREP_OK(k, p) else None))
+                okc = True
+                seen_prep = False
+                for kind, node, b, parts in fl2.exits():
+                    for st in parts.values():
+                        if "rewatch-failed" in st.may or "rewatch-ok" in st.may:
+                            seen_prep = True
+                        if "rewatch-failed" in st.may and "raised" not in st.must:
+                            okc = False
+                        if "rewatch-ok" not in st.must and "rewatch-failed" not in st.must and "raised" not in st.must:
+                            okc = False      # a path that neither re-watched nor raised the flag again
+                okc = okc and seen_prep
+            ctx.check(okc, "deleted-flag-cleared-only-after-rewatch:" + short(f_), "guarded_by / must_follow", f_.loc(c_),
+                      "drop_in_dir_deleted_ is cleared only where the directory is being watched again",
+                      "drop_in_dir_deleted_ is cleared although prepDropInWatcher may have failed (and is not raised again on that path): the tick stops retrying, "
+                      "a drop-in directory that is re-created later is never watched or scanned again")
+    ctx.counters["deleted_flag_clears"] = n_clr
+    ctx.floor("deleted_flag_clears", 1, "places where drop_in_dir_deleted_ is cleared")
     ctx.check("atomic" in fl_.get("drop_in_dir_deleted_", {}).get("type", ""), "deleted-flag-atomic", "type", "oomd/dropin/FsDropInService.h",
               "drop_in_dir_deleted_ (written by the watcher, read by the tick) is atomic", "drop_in_dir_deleted_ is not atomic")
     # write-once fields
